@@ -183,7 +183,6 @@ func guardFacts(pkgs map[string]*parsed) (map[string]bool, []string) {
 	cs := findFunc(g, "ConvertString")
 	conds = ifConds(cs)
 	flags["convertEmpty"] = anyContains(conds, "len(data) == 0", "len(data) < 1", "len(data) < 2", "len(s) == 0", "len(s) < 2")
-	flags["convertSlice"] = anyContains(conds, "len(data) <", "> len(data)")  && anyContains(conds, "strDataLen")
 	rl := findFunc(g, "readLength")
 	conds = ifConds(rl)
 	n := 0
@@ -216,7 +215,7 @@ func emitFacts(pkgs map[string]*parsed) string {
 		sb.WriteString("-- " + n + "\n")
 	}
 	order := []string{"bindVersionMsg", "ctrlType", "ctrlCrit", "pagingShape", "pagingSize", "beheraWarn", "ctrlValue",
-		"convertEmpty", "readLenBounds", "convertSlice", "modifyRespCode"}
+		"convertEmpty", "readLenBounds", "modifyRespCode"}
 	sb.WriteString("def guards : Gldap.Guards :=\n  {")
 	for i, k := range order {
 		if i > 0 {
